@@ -49,6 +49,10 @@ def gen(seed, idx, tier):
 def post(sim, h):
     o = sim.scn["options"]
     V = []
+    if h.outcome.startswith("raised") and not h.faults_fired and not base.injected(h.exc_obj):
+        # nothing was injected: a quiescent run has nothing to fail on (the induced potential of
+        # the uniform state is identically zero, every discriminant is positive)
+        V.append(Violation("quiescent-run-failed", f"the undriven run raised {h.exc[0]}: {h.exc[1][:110]}", exc=h.exc[0], screening=bool(o.get("include_screening"))))
     if o.get("adaptive") and not sim.scn.get("faults"):
         win = o.get("adaptive_window", 10)
         for u in h.stages["S"]:
